@@ -189,6 +189,52 @@ fn pool(ev: Ev) -> Vec<i64> {
     v
 }
 
+/// Large values (2^53 .. 2^63) in Integer and Float spellings: comparisons must be exact, not through doubles.
+fn large_items(ev: Ev) -> Vec<(i128, String)> {
+    let ints: Vec<i128> = vec![(1 << 53) - 1, 1 << 53, (1 << 53) + 1, (1 << 53) + 2, (1 << 53) + 3, 1 << 62, (1 << 63) - 1025, (1 << 63) - 1024, (1 << 63) - 1, -((1 << 53) + 1), -(1 << 53), -(1i128 << 63), -((1 << 63) - 1)];
+    let mut v: Vec<(i128, String)> = Vec::new();
+    for n in ints {
+        let int_text = if n == -(1i128 << 63) { "(-9223372036854775807-1)".to_string() } else if n < 0 { format!("(-{})", -n) } else { format!("{}", n) };
+        v.push((n, int_text));
+        if ev == Ev::Num && (n as f64) as i128 == n {
+            // exactly representable as a double: Float spelling
+            v.push((n, if n < 0 { format!("(-{}.0)", -n) } else { format!("{}.0", n) }));
+        }
+    }
+    if ev == Ev::Num {
+        v.push((1i128 << 63, "9223372036854775808.0".to_string()));
+        v.push((1i128 << 64, "18446744073709551616.0".to_string()));
+    }
+    v
+}
+
+fn large_cases() -> &'static Vec<Case> {
+    static CELL: std::sync::OnceLock<Vec<Case>> = std::sync::OnceLock::new();
+    CELL.get_or_init(|| {
+        let mut out = Vec::new();
+        for ev in [Ev::Num, Ev::I64] {
+            let items = large_items(ev);
+            for f in ["min", "max", "med", "median"] {
+                for a in &items {
+                    for b in &items {
+                        if f == "min" || f == "max" {
+                            let mut c = Case::new(ev, format!("{}({},{})", f, a.1, b.1), Val::default_for(ev));
+                            c.aux = vec![f.to_string(), format!("{} {}", a.0, b.0), "large".into()];
+                            out.push(c);
+                        }
+                        for x in items.iter().step_by(3) {
+                            let mut c = Case::new(ev, format!("{}({},{},{})", f, a.1, b.1, x.1), Val::default_for(ev));
+                            c.aux = vec![f.to_string(), format!("{} {} {}", a.0, b.0, x.0), "large".into()];
+                            out.push(c);
+                        }
+                    }
+                }
+            }
+        }
+        out
+    })
+}
+
 fn tuple_space(n: u64, maxlen: u32) -> u64 {
     (1..=maxlen).map(|l| n.pow(l)).sum()
 }
@@ -221,7 +267,7 @@ impl Prop for C11Prop {
         "C11"
     }
     fn rule(&self) -> String {
-        "Cases are (evaluator, aggregate, argument list). Exhaustive: every ordered argument tuple (hence every permutation of every multiset) of length 1..4 (thorough: 1..5) over the pool {-7,-2,-1,0,1,2,3,5,12 (+0.5, 2.5 outside i64)} for min max avg med median (f64, i64, decimal, number) and gcd lcm (i64); random lists of length 1..8 over dyadic rationals k/1024 (f64, number: every partial sum exact), scale-4 decimals, and the wide i64 pool, with arguments spelled as literals, bracketed, prefixed, as sums and as nested aggregates (number: Integer and Float spellings mixed); every position of a failing argument (w(-5), 1/0); empty lists. Oracle: computed from the multiset of argument values: min/max exact; mean = exact sum / n (f64/number: the correctly rounded double, decimal: exact when representable else within 1e-27, i64: truncated toward zero, Err acceptable iff a partial sum leaves i64); median = middle value or mean of the two middle values; gcd >= 0 (gcd(0,0)=0), lcm = |a*b|/gcd with lcm(0,x)=0, Err iff the result leaves i64. non-trivial = length >= 2 and not all arguments equal; distinct by (evaluator, function, list).".into()
+        "Cases are (evaluator, aggregate, argument list). Exhaustive: every ordered argument tuple (hence every permutation of every multiset) of length 1..4 (thorough: 1..5) over the pool {-7,-2,-1,0,1,2,3,5,12 (+0.5, 2.5 outside i64)} for min max avg med median (f64, i64, decimal, number) and gcd lcm (i64); random lists of length 1..8 over dyadic rationals k/1024 (f64, number: every partial sum exact), scale-4 decimals, and the wide i64 pool, with arguments spelled as literals, bracketed, prefixed, as sums and as nested aggregates (number: Integer and Float spellings mixed); every position of a failing argument (w(-5), 1/0); empty lists; exhaustive pairs/triples of values between 2^53 and 2^64 in Integer and (where exactly representable) Float spellings for min, max and odd-count med in eval_number and eval_i64, compared exactly. Oracle: computed from the multiset of argument values: min/max exact; mean = exact sum / n (f64/number: the correctly rounded double, decimal: exact when representable else within 1e-27, i64: truncated toward zero, Err acceptable iff a partial sum leaves i64); median = middle value or mean of the two middle values; gcd >= 0 (gcd(0,0)=0), lcm = |a*b|/gcd with lcm(0,x)=0, Err iff the result leaves i64. non-trivial = length >= 2 and not all arguments equal; distinct by (evaluator, function, list).".into()
     }
     fn subs(&self, tier: Tier) -> Vec<Sub> {
         let l = tier.pick(4, 5) as u32;
@@ -230,9 +276,13 @@ impl Prop for C11Prop {
             Sub { name: "tuples", kind: SubKind::Enum { count: total } },
             Sub { name: "random", kind: SubKind::Random { cases: tier.pick(400_000, 20_000_000), len: 60 } },
             Sub { name: "failing", kind: SubKind::Enum { count: 4 * 7 * 5 * 5 + 4 * 7 } },
+            Sub { name: "large", kind: SubKind::Enum { count: large_cases().len() as u64 } },
         ]
     }
     fn gen_enum(&self, sub: &str, mut idx: u64, tier: Tier) -> Option<Case> {
+        if sub == "large" {
+            return large_cases().get(idx as usize).cloned();
+        }
         if sub == "failing" {
             // (ev, func, length 1..=5, failing position) and empty lists
             let ev = EVS[(idx % 4) as usize];
@@ -327,6 +377,29 @@ impl Prop for C11Prop {
                 }
                 sc.class("empty list");
                 sc.nontrivial(case.hash(), || sample(case, &o.show()));
+                return Ok(());
+            }
+            Some("large") => {
+                let vals: Vec<i128> = case.aux[1].split_whitespace().filter_map(|t| t.parse().ok()).collect();
+                let mut sorted = vals.clone();
+                sorted.sort();
+                let want = match canon {
+                    "min" => sorted[0],
+                    "max" => *sorted.last().unwrap(),
+                    _ => sorted[sorted.len() / 2],
+                };
+                let ok = match &o {
+                    Outcome::Ok(Val::I(g)) | Outcome::Ok(Val::NI(g)) => *g as i128 == want,
+                    Outcome::Ok(Val::NF(g)) => g.is_finite() && g.fract() == 0.0 && g.abs() < 1e30 && *g as i128 == want,
+                    _ => false,
+                };
+                if !ok {
+                    return Err(Failure::new(format!("{}/aggregate-large/{}", ev.name(), canon), format!("{} exactly (argument values {:?})", want, vals), o.show()));
+                }
+                sc.class(&format!("{}:{} (values beyond 2^53)", ev.name(), canon));
+                if vals.iter().any(|v| *v != vals[0]) {
+                    sc.nontrivial(case.hash(), || sample(case, &o.show()));
+                }
                 return Ok(());
             }
             Some("failing") => {
